@@ -18,6 +18,20 @@ def parseMod? (s : String) : Option ModuleCfg :=
     pure { name, threshold := thr, sendInterval := iv, sendOnce := once == "1", sendClose := close == "1" }
   | _ => none
 
+def optInt? (s : String) : Option (Option Int) := if s == "-" then some none else (parseInt? s).map some
+def optBool? (s : String) : Option (Option Bool) :=
+  if s == "-" then some none else if s == "1" then some (some true) else if s == "0" then some (some false) else none
+def optStr (s : String) : Option String := if s == "-" then none else some s
+
+def parseSpec? (s : String) : Option ModSpec :=
+  match s.splitOn ":" with
+  | [name, thr, iv, siv, once, close, allow, deny] => do
+    pure { name, threshold := (← optInt? thr), interval := (← optInt? iv), sendInterval := (← optInt? siv),
+           sendOnce := (← optBool? once), sendClose := (← optBool? close), allow := optStr allow, deny := optStr deny }
+  | _ => none
+
+def bitS (b : Bool) : String := if b then "1" else "0"
+
 def insertSorted (x : String) : List String → List String
   | [] => [x]
   | y :: ys => if x < y then x :: y :: ys else y :: insertSorted x ys
@@ -33,6 +47,17 @@ def step (st : St) (args : List String) : St × String :=
     match (mods.splitOn ";").mapM parseMod? with
     | some cfgs => ({ cfgs }, "ok")
     | none => (st, "bad-op")
+  | ["conf", mods] =>
+    match (mods.splitOn ";").mapM parseSpec? with
+    | none => (st, "bad-op")
+    | some specs =>
+      let one (m : ModSpec) : String :=
+        let c := m.cfg
+        s!"{m.name}:{c.threshold}/{c.sendInterval}/{bitS c.sendOnce}/{bitS c.sendClose}"
+      let lst (m : ModSpec) : String := s!"{m.name}:{m.lists.1.getD "-"}/{m.lists.2.getD "-"}"
+      let sorted (l : List String) := l.foldl (fun acc x => insertSorted x acc) []
+      (st, s!"conf min={minIntervalOf specs} mods=" ++ ";".intercalate (sorted (specs.map one)) ++ " lists=" ++
+        ";".intercalate (sorted (specs.map lst)))
   | ["group", c, g] => ({ st with state := setG (c, g) GroupRec.fresh st.state }, "ok")
   | ["delgroup", c, g] => ({ st with state := eraseG (c, g) st.state }, "ok")
   | ["refresh", spec, stall] =>
